@@ -143,7 +143,7 @@ def run(ctx: Ctx):
         for k, c in enumerate(rig.exhaustive_pair(depth_all, (u, d, 1, 1))):
             c["ops"] += [dict(o) for o in TAIL]
             cases.append((f"exh{depth_all}:{u},{d}:{k}", c))
-    deeper = [(0, 0)] + rng.shuffle([x for x in all_durs if x != (0, 0)])[: ctx.scale(0, 5)]
+    deeper = [(0, 0)] + rng.shuffle([x for x in all_durs if x != (0, 0)])[: ctx.scale(0, 3)]
     if ctx.thorough:
         for (u, d) in deeper:
             for k, c in enumerate(rig.exhaustive_pair(depth_all + 1, (u, d, 1, 1))):
